@@ -256,7 +256,7 @@ impl Prop for C07 {
                     continue;
                 }
                 let toggle_after_type_head = regions.iter().any(|&(a, b, _)| {
-                    [a, b].iter().any(|&p| p > 0 && matches!(lay.pieces[p - 1].text.to_ascii_lowercase().as_str(), "class" | "record" | "interface" | "object" | "=" | "helper" | "packed"))
+                    [a, b].iter().any(|&p| p > 0 && matches!(lay.pieces[p - 1].text.to_ascii_lowercase().as_str(), "class" | "record" | "interface" | "object" | "=" | "helper" | "packed" | "to" | "of" | "array" | "set" | "reference" | "function" | "procedure"))
                 });
                 let class = if wf::in_ranges(&orphans, ord) || (ord > 0 && wf::in_ranges(&orphans, ord - 1)) {
                     "child-of-verbatim-parent"
